@@ -227,9 +227,7 @@ def rowsStr (rs : List (Nat × List (String × Option String))) : String :=
     s!"r{r.1}:" ++ joinWith "," (r.2.map fun p => p.1 ++ "=" ++ (p.2.getD "null"))
   if rs.isEmpty then "rows" else "rows " ++ joinWith ";" (rs.map one)
 
-def d : Defects := Defects.asImplemented
-
-def stepLine (s : St) (line : String) : St × String :=
+def stepLine (d : Defects) (s : St) (line : String) : St × String :=
   let toks := tokens line
   match toks with
   | "case" :: rest =>
@@ -314,5 +312,11 @@ def stepLine (s : St) (line : String) : St × String :=
 
 end SchemaDriver
 
+/-- `DV_DEFECTS=none` runs the intended behaviour (used to try fix patches); default: the code as implemented -/
 def main : IO Unit := do
-  loop (← IO.getStdin) (← IO.getStdout) SchemaDriver.stepLine SchemaDriver.St.init
+  let d := match (← IO.getEnv "DV_DEFECTS") with
+    | some "none" => Defects.none
+    | some "hashOrderIds" => { hashOrderIds := true, partialRefusal := false }
+    | some "partialRefusal" => { hashOrderIds := false, partialRefusal := true }
+    | _ => Defects.asImplemented
+  loop (← IO.getStdin) (← IO.getStdout) (SchemaDriver.stepLine d) SchemaDriver.St.init
